@@ -16,7 +16,7 @@ import (
 	"verif/internal/spec"
 )
 
-var idRe = regexp.MustCompile(`[gtsv][0-9]{4}`)
+var idRe = regexp.MustCompile(`[gtsvr][0-9]{4}`)
 
 func Main(tier, replay string) {
 	run := core.NewRun("C08", tier)
@@ -26,13 +26,14 @@ func Main(tier, replay string) {
 	typ, _, _ := fam.Types(tier)
 	lay := fam.Family{Name: "layout", Cases: c01.Cases(tier), BaseCfg: fam.DefaultCfg, PackSize: 100}
 	sec := fam.Security()
+	gen := fam.Generics()
 	docsChecked, findings := 0, 0
 	var replayID string
 	if replay != "" {
 		_, v := core.LoadReplay(replay)
 		replayID, _ = v.Case.(map[string]any)["id"].(string)
 	}
-	for _, f := range []fam.Family{sig, typ, lay, sec} {
+	for _, f := range []fam.Family{sig, typ, lay, sec, gen} {
 		byID := map[string]scen.Case{}
 		var packed, singles []scen.Case
 		for i, c := range f.Cases {
@@ -48,6 +49,10 @@ func Main(tier, replay string) {
 					singles = append(singles, c)
 				}
 				continue // known hard rejections: no document is produced
+			}
+			if f.Name == "generics" {
+				singles = append(singles, c) // many of these are rejected with a hard error: run alone
+				continue
 			}
 			packed = append(packed, c)
 			if tier == "thorough" || i%15 == 0 {
@@ -98,7 +103,7 @@ func Main(tier, replay string) {
 	run.Set("findings_total", findings)
 	run.Sample(map[string]any{"family": "signature", "case": sig.Cases[0]})
 	run.Sample(map[string]any{"family": "types", "case": typ.Cases[0]})
-	run.Bound = fmt.Sprintf("every document (3.0.0 and 3.1.0) emitted for the signature (%d), type (%d), layout (%d) and security (%d) scenario families, packed and alone", len(sig.Cases), len(typ.Cases), len(lay.Cases), len(sec.Cases))
+	run.Bound = fmt.Sprintf("every document (3.0.0 and 3.1.0) emitted for the signature (%d), type (%d), layout (%d), security (%d) and generic-instantiation (%d) scenario families, packed and alone", len(sig.Cases), len(typ.Cases), len(lay.Cases), len(sec.Cases), len(gen.Cases))
 	run.Rule = "state = one generated project; transition = one run of the real pipeline + spec generators; validated = documents checked by the independent structural validator ($ref closure, path-template/path-parameter bijection, unique parameters, response descriptions, enum value types, JSON-schema types, info/servers/securitySchemes as configured)"
 	run.Assumptions = []string{"documents of projects with error diagnostics are not judged (the command writes nothing for them; C10 checks that)"}
 	os.RemoveAll(scratch)
